@@ -77,12 +77,12 @@ def _value(fmt, v):
     return -x if s else x
 
 
-def fpnum(fmt='hp', seed=0, **kw):
+def fpnum(fmt='hp', seed=0, scale=1, **kw):
     """FPNum: bit-pattern round trip through from_ieee754_* / convert, exact value, add/sub/mul/compare against Fraction"""
     from py4hw.helper import FPNum
     rnd = random.Random(seed); evals = 0
     ew, mw, _ = FMT[fmt]
-    pats = list(range(1 << 16)) if fmt == 'hp' else list(_patterns(fmt, rnd, 300))
+    pats = list(range(1 << 16)) if fmt == 'hp' else list(_patterns(fmt, rnd, 300 * scale))
     finite = []
     for v in pats:
         e = (v >> mw) & ((1 << ew) - 1)
@@ -101,7 +101,7 @@ def fpnum(fmt='hp', seed=0, **kw):
                 return _bf('FPNum::%s-denotes#bounded' % fmt, evals, {'pattern': hex(v)}, str(_value(fmt, v)), str(val), 'FPNum.from_ieee754_%s' % fmt)
             finite.append(v)
     # arithmetic and order, exact
-    sample = finite if len(finite) < 400 else rnd.sample(finite, 400)
+    sample = finite if len(finite) < 400 * scale else rnd.sample(finite, 400 * scale)
     # signed zeros and the smallest / largest finite magnitudes, every ordered pair
     sign = 1 << (ew + mw); top = (((1 << ew) - 2) << mw) | ((1 << mw) - 1)
     edge = [0, sign, 1, sign | 1, 1 << mw, sign | (1 << mw), top, sign | top]
@@ -123,7 +123,7 @@ def fpnum(fmt='hp', seed=0, **kw):
     return _bok('FPNum::%s#bounded' % fmt, evals, 'FPNum (%s)' % fmt)
 
 
-def floats(fmt='sp', seed=0, **kw):
+def floats(fmt='sp', seed=0, scale=1, **kw):
     """float helpers against the platform's IEEE-754 encoding (struct)"""
     from py4hw.helper import FloatingPointHelper as H, FPNum
     rnd = random.Random(seed); evals = 0
@@ -131,7 +131,7 @@ def floats(fmt='sp', seed=0, **kw):
     enc = H.sp_to_ieee754 if fmt == 'sp' else H.dp_to_ieee754
     dec = H.ieee754_to_sp if fmt == 'sp' else H.ieee754_to_dp
     icode = 'I' if fmt == 'sp' else 'Q'
-    for v in _patterns(fmt, rnd, 500):
+    for v in _patterns(fmt, rnd, 500 * scale):
         if ((v >> mw) & ((1 << ew) - 1)) == (1 << ew) - 1 and v & ((1 << mw) - 1): continue     # NaN payloads excepted
         f = struct.unpack(code, struct.pack(icode, v))[0]
         evals += 1
@@ -164,7 +164,7 @@ def floats(fmt='sp', seed=0, **kw):
     return _bok('float::%s#bounded' % fmt, evals, 'FloatingPointHelper (%s)' % fmt)
 
 
-def fixedpoint(seed=0, **kw):
+def fixedpoint(seed=0, scale=1, **kw):
     """FixedPoint.add / sub / mult on raw encodings: exhaustive for small formats, sampled for larger ones"""
     from py4hw.helper import FixedPoint
     rnd = random.Random(seed); evals = 0
@@ -172,7 +172,7 @@ def fixedpoint(seed=0, **kw):
     for (sw, iw, fw) in [(1, 1, 0), (1, 1, 1), (1, 2, 2), (1, 3, 1), (1, 1, 4), (1, 4, 4), (1, 7, 8), (1, 15, 16)]:
         w = sw + iw + fw
         pairs = [(a, b) for a in range(1 << w) for b in range(1 << w)] if w <= 5 else \
-            [(rnd.choice([0, 1, (1 << w) - 1, 1 << (w - 1), (1 << (w - 1)) - 1, rnd.getrandbits(w)]), rnd.choice([0, 1, (1 << w) - 1, 1 << (w - 1), (1 << (w - 1)) - 1, rnd.getrandbits(w)])) for _ in range(600)]
+            [(rnd.choice([0, 1, (1 << w) - 1, 1 << (w - 1), (1 << (w - 1)) - 1, rnd.getrandbits(w)]), rnd.choice([0, 1, (1 << w) - 1, 1 << (w - 1), (1 << (w - 1)) - 1, rnd.getrandbits(w)])) for _ in range(600 * scale)]
         for a, b in pairs:
             x = FixedPoint.fromRawValue(sw, iw, fw, a); y = FixedPoint.fromRawValue(sw, iw, fw, b)
             for name, want in (('add', (a + b) % (1 << w)), ('sub', (a - b) % (1 << w)), ('mult', ((sx(a, w) * sx(b, w)) >> fw) % (1 << w))):
@@ -193,8 +193,9 @@ def main(tier, seed, only=None):
     from contracts.fpnum import AXIOMS
     items += [('props.C12:heap_item', dict(qual=q, timeout_s=30 if tier == 'quick' else 120)) for q in HEAP_FUNCS]
     items += [('props.C12:axiom_item', dict(name=a, timeout_s=30)) for a in AXIOMS]
-    items += [('props.C12:fpnum', dict(fmt=f, seed=seed)) for f in ('hp', 'sp', 'dp')]
-    items += [('props.C12:floats', dict(fmt=f, seed=seed)) for f in ('sp', 'dp')] + [('props.C12:fixedpoint', dict(seed=seed))]
+    sc = 1 if tier == 'quick' else 10
+    items += [('props.C12:fpnum', dict(fmt=f, seed=seed + 7 * k, scale=sc)) for f in ('hp', 'sp', 'dp') for k in range(1 if (tier == 'quick' or f == 'hp') else 4)]
+    items += [('props.C12:floats', dict(fmt=f, seed=seed, scale=sc)) for f in ('sp', 'dp')] + [('props.C12:fixedpoint', dict(seed=seed, scale=sc))]
     items = common.filter_only(items, only)
     res = run.run_items(items)
     return run.finish(PROP, tier, res, t0, level='proof', seed=seed,
